@@ -102,16 +102,34 @@ def evaluate(P, cases):
 
 
 def _run_blocks(blocks, mode):
-    lines = []
-    for b in blocks:
-        lines.append("reset")
-        lines += b
-    out = core.run_driver(lines, mode)
-    res, k = [], 0
-    for b in blocks:
-        k += 1
-        res.append(out[k:k + len(b)])
-        k += len(b)
+    """stateful blocks: every block starts with `reset`; blocks are spread over several driver processes"""
+    import threading
+    k = max(1, min(core.NCPU, len(blocks) // 4))
+    parts = [list(range(i, len(blocks), k)) for i in range(k)]
+    res = [None] * len(blocks)
+    errs = []
+
+    def work(idx):
+        try:
+            lines = []
+            for bi in idx:
+                lines.append("reset")
+                lines += blocks[bi]
+            out = core.run_driver(lines, mode)
+            p = 0
+            for bi in idx:
+                p += 1
+                res[bi] = out[p:p + len(blocks[bi])]
+                p += len(blocks[bi])
+        except Exception as e:  # noqa
+            errs.append(e)
+    ths = [threading.Thread(target=work, args=(part,)) for part in parts]
+    for t in ths:
+        t.start()
+    for t in ths:
+        t.join()
+    if errs:
+        raise errs[0]
     return res
 
 
